@@ -11,11 +11,13 @@ RULE = ("operation sequences (1-14 ops) of set/add/delete on an empty MafRecord 
         "column objects, objects created earlier in the history, or the object stored in a slot (aliasing); "
         "four streams: mostly-valid, index-clash heavy, adversarial, aliasing-heavy; a case is non-trivial when at "
         "least two operations succeed and the record is non-empty at some point; distinct by hash of the op list")
-ASSUMPTIONS = ["column objects are edited only through the record's own operations (the caller re-uses objects - "
+ASSUMPTIONS = ["column indexes beyond what a list can hold (10**13 and up) fail with MemoryError/OverflowError in the real code; the "
+               "model has unbounded lists, so those histories are judged by the oracle only (a failed operation changes nothing)",
+               "column objects are edited only through the record's own operations (the caller re-uses objects - "
                "modelled - but does not assign to their attributes behind the record's back)",
                "column payloads are integers (their text has no TAB)"]
 
-EXC = {"KeyError": 1, "ValueError": 2, "TypeError": 3, "IndexError": 4, "AssertionError": 5}
+EXC = {"KeyError": 1, "ValueError": 2, "TypeError": 3, "IndexError": 4, "AssertionError": 5, "MemoryError": 6, "OverflowError": 7}
 NAMES = ["A", "B", "C", "D", "E"]
 
 
@@ -89,8 +91,33 @@ def _gen_one(rng):
     return {"stream": stream, "ops": ops}
 
 
+HUGE = [10 ** 13, 2 ** 62, 2 ** 63, 10 ** 30]
+
+
+def _gen_huge(rng):
+    """an index no list can be padded to (MemoryError / OverflowError at once, nothing is allocated): the operation
+    fails and must change nothing.  The model is about unbounded lists and is not asked (oracle only)."""
+    c = _gen_one(rng)
+    ops = c["ops"][: rng.randint(0, 6)]
+    big = rng.choice(HUGE)
+    name = rng.choice(NAMES)
+    form = rng.random()
+    if form < 0.4:
+        ops.append(["set", ["str", name], [name, big, 1]])
+    elif form < 0.7:
+        ops.append(["add", [name, big, 1]])
+    else:
+        ops.append(["set", ["int", big], [name, rng.choice([None, big]), 1]])
+    ops.extend(_gen_one(rng)["ops"][:3])
+    return {"stream": "huge", "ops": ops}
+
+
+def skip_compare(case):
+    return case["stream"] == "huge"
+
+
 def generate(rng, n):
-    return [_gen_one(rng) for _ in range(n)]
+    return [_gen_huge(rng) if rng.random() < 0.04 else _gen_one(rng) for _ in range(n)]
 
 
 def corpus():
@@ -104,6 +131,7 @@ def corpus():
         {"stream": "corpus", "ops": [["add", ["A", None, 1]], ["add", ["B", None, 2]], ["set", ["int", 5], ["slot", 0]]]},
         {"stream": "corpus", "ops": [["add", ["A", None, 1]], ["set", ["int", 0], ["B", None, 2]], ["add", ["ref", 1]],
                                      ["set", ["col", ["ref", 0]], ["slot", 0]], ["del", ["col", ["slot", 0]]], ["add", ["ref", 0]]]},
+        {"stream": "huge", "ops": [["add", ["A", None, 1]], ["set", ["str", "B"], ["B", 10 ** 13, 2]], ["add", ["C", None, 3]]]},
         {"stream": "corpus", "ops": [["set", ["int", 3], ["A", None, 1]], ["del", ["int", 3]], ["set", ["int", 1], ["ref", 0]],
                                      ["set", ["int", 3], ["ref", 0]]]},
     ]
@@ -137,6 +165,8 @@ def _mkey(k):
 
 def to_model(case):
     out = []
+    if case["stream"] == "huge":
+        return out           # not asked: the model would pad a list to 10**13 entries
     for op in case["ops"]:
         if op[0] == "set":
             out.append([0, _mkey(op[1]), _mcol(op[2])])
